@@ -1,5 +1,4 @@
 from shexer.utils.log import log_msg
-from shexer.utils.uri import there_is_arroba_after_last_quotes
 from shexer.utils.triple_yielders import tune_prop, tune_token  # , check_if_property_belongs_to_namespace_list
 from shexer.io.graph.yielder.base_triples_yielder import BaseTriplesYielder
 
@@ -93,23 +92,26 @@ class NtTriplesYielder(BaseTriplesYielder):
         return len(target_substring) - 1 if target_substring.endswith(".") else len(target_substring)
 
     def _look_for_last_index_of_literal_token(self, target_str, first_index):
-        target_substring = target_str[first_index:]
-
-        if there_is_arroba_after_last_quotes(target_substring):  # String labelled with language
-            return self._index_of_token_end(target_substring[target_substring.rfind("@"):]) - 1 + target_str.rfind("@")
-        elif "^^" not in target_substring:  # Not typed
-            success = False
-            index_of_quotes = 1
-            while not success:
-                index_of_second_quotes = target_substring[index_of_quotes + 1:].find('"') + index_of_quotes + 1
-                if target_substring[index_of_second_quotes - 1] != "\\":
-                    success = True
-                elif target_substring[index_of_second_quotes - 2] == "\\":  # Case of escaped slash "\\"
-                    success = True
-                index_of_quotes = index_of_second_quotes
-            return index_of_quotes + (len(target_str) - len(target_substring))
-        else:  # Typed
-            return self._index_of_token_end(target_substring[target_substring.find("^^"):]) - 1 + target_str.find("^^")
+        # Closing quote: the first quote that is not escaped. A backslash always escapes the next character,
+        # so '\\"' (escaped backslash, then the closing quote) and '\"' (escaped quote) are told apart.
+        index_of_quotes = first_index + 1
+        while index_of_quotes < len(target_str) and target_str[index_of_quotes] != '"':
+            index_of_quotes += 2 if target_str[index_of_quotes] == "\\" else 1
+        if index_of_quotes >= len(target_str):  # No closing quote: the token reaches the end of the line
+            return len(target_str) - 1
+        # What follows the closing quote decides where the token ends; the lexical form and a
+        # trailing comment may contain '@', '^^' or quotes without any effect.
+        rest = target_str[index_of_quotes + 1:]
+        if rest.startswith("^^<") and ">" in rest:  # datatype IRI: up to its closing corner
+            return index_of_quotes + 1 + rest.find(">")
+        if rest.startswith("@"):  # language tag: letters, digits and '-'
+            tag_length = 1
+            while tag_length < len(rest) and (rest[tag_length].isalnum() or rest[tag_length] == "-"):
+                tag_length += 1
+            return index_of_quotes + tag_length
+        if rest.startswith("^^"):  # prefixed datatype: up to the next blank
+            return index_of_quotes + self._index_of_token_end(rest)
+        return index_of_quotes
 
     @property
     def yielded_triples(self):
